@@ -252,19 +252,42 @@ def export_lines(sol, solver, im, work, idx, k):
         probs.append(('json_indicator_mismatch', ''))
     # --- Excel ---
     fn = os.path.join(work, 'sol_%d_%d_%d.xlsx' % (os.getpid(), idx, k))
-    with warnings.catch_warnings():
-        warnings.simplefilter('ignore')
-        sol.to_excel_file(fn)
-    sheets = read_xlsx(fn)
-    os.remove(fn)
+    sheets = None
+    try:
+        with warnings.catch_warnings():
+            warnings.simplefilter('ignore')
+            sol.to_excel_file(fn)
+        sheets = read_xlsx(fn)
+    except Exception as e:
+        # finding F41: two simultaneous tasks of a cumulative worker are two overlapping merged ranges of one row
+        kind = 'excel_overlapping_range' if type(e).__name__ == 'OverlappingRange' else 'excel_export_failed'
+        probs.append((kind, '%s: %s' % (type(e).__name__, str(e)[:150])))
+    if os.path.exists(fn):
+        os.remove(fn)
+    if sheets is None:
+        lines.append('NOTE no-excel')
+        sheets = {}
     for title, tag in (('GANTT Resource view', 'R'), ('GANTT Task view', 'T')):
         for (row, c1, c2, val) in sheets.get(title, []):
             if row == 0 or c1 == 0:
                 continue          # header row, name column
             lines.append('XLS %s %d %s %s %s' % (tag, row, show_z(c1), show_z(c2), val))
+    # every reported assignment of length >= 1 must be readable from the resource sheet (unless another assignment
+    # of the same resource shares a cell with it: finding F25)
+    rcells = {(row, c1, c2, val) for (row, c1, c2, val) in sheets.get('GANTT Resource view', []) if row > 0 and c1 > 0}
+    for i, (rname, r) in enumerate(sol.resources.items()):
+        spans = [(a[1] + 1, max(a[2], a[1] + 1)) for a in r.assignments]
+        for a, (c1, c2) in zip(r.assignments, spans):
+            clash = sum(1 for (d1, d2) in spans if d1 <= c2 and c1 <= d2) > 1
+            if sheets and a[1] >= 0 and a[2] - a[1] >= 1 and a[2] < 16000 and not clash and (i + 1, c1, c2, a[0]) not in rcells:
+                probs.append(('excel_assignment_missing', '%s: %s is not in the resource sheet' % (rname, (a,))))
+    tcells = {(row, c1, c2, val) for (row, c1, c2, val) in sheets.get('GANTT Task view', []) if row > 0 and c1 > 0}
+    for i, (tname, t) in enumerate(sol.tasks.items()):
+        if sheets and t.start >= 0 and t.end - t.start >= 1 and t.end < 16000 and (i + 1, t.start + 1, t.end, ','.join(t.assigned_resources)) not in tcells:
+            probs.append(('excel_task_bar_missing', '%s [%d,%d] is not in the task sheet' % (tname, t.start, t.end)))
     names_col = {(row): val for (row, c1, c2, val) in sheets.get('GANTT Task view', []) if c1 == 0 and row > 0}
     for i, name in enumerate(sol.tasks):
-        if names_col.get(i + 1) != name:
+        if sheets and names_col.get(i + 1) != name:
             probs.append(('excel_task_name_overwritten', '%s: row %d shows %r' % (name, i + 1, names_col.get(i + 1))))
     for (row, c1, c2, val) in sheets.get('Indicators', []):
         pass
@@ -369,7 +392,41 @@ def gantt_lines(sol):
             lines.append('GANTT %s %d %s %s %s %s' % (mode, int(round(y / 2)), show_z(t20(x)), show_z(t20(w)), show_z(t20(tx)), txt))
         for lab in ax.get_yticklabels():
             lines.append('LABEL %s %s' % (mode, lab.get_text()))
+        # direct check of the clauses on the artists
+        eff = mode if sol.resources else 'Task'
+        got = collections.Counter()
+        for (x, w, y, h), ((tx, ty), txt) in zip(bars, texts):
+            got[(int(round(y / 2)), round(x, 6), round(w, 6), txt)] += 1
+        want = collections.Counter()
+        if eff == 'Resource':
+            for i, (rname, r) in enumerate(sol.resources.items()):
+                for (tn, a, b) in r.assignments:
+                    lo, ln = (a - 0.05, 0.1) if b - a == 0 else ((a, b - a) if b >= a else (b, a - b))
+                    want[(i, round(lo, 6), round(ln, 6), tn)] += 1
+        else:
+            sched = [t for t in sol.tasks.values() if t.scheduled]
+            for i, t in enumerate(sched):
+                lo, ln = (t.start - 0.05, 0.1) if t.duration == 0 else (t.start, t.duration)
+                want[(i, round(lo, 6), round(ln, 6), ','.join(t.assigned_resources) if t.assigned_resources else r'($\emptyset$)')] += 1
+        if got != want:
+            miss = list((want - got).elements())[:2]
+            extra_ = list((got - want).elements())[:2]
+            probs.append(('gantt_bars_differ_from_solution', '%s view: missing %s, unexpected %s' % (eff, miss, extra_)))
         if mode == 'Resource' and len(fig.axes) > 1:
+            want_steps = collections.Counter()
+            for bname, b in sol.buffers.items():
+                xs_ = [0] + list(b.level_change_times) + [sol.horizon]
+                for j_, y_ in enumerate(b.level):
+                    if j_ + 1 < len(xs_):
+                        want_steps[(bname, xs_[j_], xs_[j_ + 1], y_)] += 1
+            got_steps = collections.Counter()
+            for ln in fig.axes[1].lines:
+                xd, yd = list(ln.get_xdata()), list(ln.get_ydata())
+                for j in range(0, len(xd) - 1, 3):
+                    got_steps[(ln.get_label(), int(round(xd[j])), int(round(xd[j + 1])), int(round(yd[j])))] += 1
+            if got_steps != want_steps:
+                probs.append(('gantt_buffer_plot_differs', 'missing %s, unexpected %s' % (
+                    list((want_steps - got_steps).elements())[:2], list((got_steps - want_steps).elements())[:2])))
             for ln in fig.axes[1].lines:
                 xd, yd = list(ln.get_xdata()), list(ln.get_ydata())
                 for j in range(0, len(xd) - 1, 3):
@@ -540,6 +597,17 @@ def run(ctx, replay=None):
             k = n_total // len(cfg['profiles'])
             progs += gen.generate(ctx.seed * 1000 + 50 + pi, k, pf, 'quick' if quick else 'thorough')
             per_profile[pf] = k
+    if cfg['extra'] == 'export' and replay is None:
+        # long nested expressions (the SMT-LIB printer abbreviates deep terms): two constraints that differ only deep inside
+        rr = random.Random(ctx.seed + 7)
+        for p in progs:
+            tids = [terms.nval(o[1]) for o in p if o[0] == 'ONewTask']
+            if p and p[0][0] == 'ONewProblem' and tids and rr.random() < 0.35:
+                for cid, c in ((97, 0), (98, 1)):
+                    t = ('TC', terms.Z(c))
+                    for d in range(24):
+                        t = ('TAdd', [('TV', ('VStart', terms.N(tids[d % len(tids)]))), t])
+                    p.append(('ONewConstraint', terms.N(cid), False, ('CExpr', ('FLe', t, ('TC', terms.Z(100000))))))
     t1 = time.time()
     with mp.get_context('fork').Pool(16) as pool:
         results = pool.map(observe, [(i, p, ctx.seed, ctx.tier, cfg['extra'], ctx.work) for i, p in enumerate(progs)], chunksize=2)
@@ -596,6 +664,10 @@ def run(ctx, replay=None):
                         c1_, c2_ = zparse([m_.group(1)])[0], zparse([m_.group(2)])[0]
                         out_.append((l_, p_[1], int(p_[2]), c1_, c2_))
                 return out_
+            # beyond the 16384 columns of a worksheet nothing can be written
+            far = [b_[0] for b_ in bars_of(rep) if b_[4] >= 16000]
+            rep = [l for l in rep if l not in far]
+            s['report'] = [l for l in s['report'] if l not in [b_[0] for b_ in bars_of(s['report']) if b_[4] >= 16000]]
             mb = bars_of(rep)
             clash = set()
             for a_ in range(len(mb)):
@@ -609,6 +681,8 @@ def run(ctx, replay=None):
                 rep = [l for l in rep if not any(l == b_[0] and (b_[1], b_[2]) in clash for b_ in mb)]
                 ib = bars_of(s['report'])
                 s['report'] = [l for l in s['report'] if not any(l == b_[0] and (b_[1], b_[2]) in clash for b_ in ib)]
+            if 'NOTE no-excel' in s['report']:
+                rep = [l for l in rep if not l.startswith('XLS ')]
             s['report'] = [l for l in s['report'] if not l.startswith('NOTE ')]
             s['clauses'] = [(kd, dt) for kd, dt in s['clauses'] if not (kd == 'excel_task_name_overwritten' and neg)]
         elif cfg['extra'] == 'gantt':
